@@ -264,3 +264,68 @@ func (c *checkCtx) validateTraces(fam, module, cfg string, traces []*rtrace, o t
 		panic(firstInfra)
 	}
 }
+
+// bindingSelfTest demonstrates that the trace specification really constrains the recorded fields: a copy of some
+// accepted traces with one field of one event corrupted (an atom of a call goal or of an answer renamed) or with one
+// event dropped must be rejected by TLC. If a corrupted trace is accepted the binding is vacuous: infrastructure error.
+func (c *checkCtx) bindingSelfTest(module, cfg string, traces []*rtrace, max int) {
+	var corrupted []*rtrace
+	for _, t := range traces {
+		if len(corrupted) >= max {
+			break
+		}
+		if len(t.lines) < 4 {
+			continue
+		}
+		k := 1 + len(corrupted)%(len(t.lines)-2) // an event line (not the init line, not the end line)
+		line := string(t.lines[k])
+		var bad [][]byte
+		switch {
+		case len(corrupted)%2 == 0 && strings.Contains(line, `["a","`):
+			// rename the first atom of the event
+			i := strings.Index(line, `["a","`) + 6
+			j := i + strings.Index(line[i:], `"`)
+			mod := line[:i] + "zz_corrupted" + line[j:]
+			bad = append(append(append([][]byte{}, t.lines[:k]...), []byte(mod)), t.lines[k+1:]...)
+		default:
+			// drop the event
+			bad = append(append([][]byte{}, t.lines[:k]...), t.lines[k+1:]...)
+		}
+		corrupted = append(corrupted, &rtrace{cs: t.cs, input: t.input, lines: bad})
+	}
+	if len(corrupted) == 0 {
+		return
+	}
+	rejected := 0
+	var wg sync.WaitGroup
+	var mu sync.Mutex
+	for i, t := range corrupted {
+		wg.Add(1)
+		go func(i int, t *rtrace) {
+			defer wg.Done()
+			defer func() { _ = recover() }()
+			file := filepath.Join(c.work, fmt.Sprintf("selftest-%s-%d.ndjson", module, i))
+			f, _ := os.Create(file)
+			for _, l := range t.lines {
+				f.Write(l)
+				f.Write([]byte("\n"))
+			}
+			f.Close()
+			res := c.tlc(module, cfg, tlcOpts{workers: 1, env: map[string]string{"TRACE": file}, timeout: 3 * time.Minute, expectViolation: true})
+			for _, p := range res.prints {
+				if reRejected.MatchString(p) {
+					mu.Lock()
+					rejected++
+					mu.Unlock()
+					break
+				}
+			}
+		}(i, t)
+	}
+	wg.Wait()
+	c.notes = append(c.notes, fmt.Sprintf("binding self-test: %d of %d corrupted traces (one renamed atom / one dropped event) rejected by %s", rejected, len(corrupted), module))
+	// one corrupted event may fall into a stretch the reference run does not judge (after a sto/budget discard)
+	if rejected+1 < len(corrupted) {
+		infra("binding self-test: only %d of %d corrupted traces were rejected by %s - the trace specification does not constrain the recorded fields", rejected, len(corrupted), module)
+	}
+}
